@@ -146,6 +146,11 @@ def main(ctx, replay=None):
             ctx.violation(f"{bad['name']} at temperature #{bad['t']} ({bad['tag']}): the pressure-base values are not the volume-base values "
                           f"at the volumes where P(T,V) equals the requested pressures (kind={bad['kind']})", {"record": bad},
                           {"clause": "converted", "kind": bad["kind"], "name": bad["name"].rstrip("0123456789st") or bad["name"]})
+        if ctx.tier == "thorough" and ok:
+            from cv.trace import binding_control
+            k = next(i for i, r in enumerate(recs) if r["kind"] == "field" and i > 3)
+            binding_control(ctx, "Trace_V2P", "Trace_V2P.cfg", recs, k,
+                            lambda r: dict(r, Rj=[3 * max(abs(x) for x in r["Fv"]) + 7] + list(r["Rj"][1:])), "v2p_neg", "converted_value")
         # ---- rejection decisions -------------------------------------------------------------------------
         nrej = 24 if ctx.tier == "quick" else 200
         def _cls(row):
